@@ -23,6 +23,9 @@ class ParsePath:
     assume_fields = {"self._original": "str", "self._separator": "PathSeparators"}
     raises = ["YAMLPathException"]
     # callers see: a deque of seg_count(self) segments (the same count for the escaped and the unescaped parse)
+    # (an attempt to PROVE the typed-attribute clauses at the parser's append sites -- engine option "append_inv" --
+    # is described in DESIGN.md section 6/C14: it refuted them on the pinned tree with real inputs ((a)x, [(a)b],
+    # [a='b(c)'], a.(&a): repaired), and what remains needs a stack-discipline invariant this encoding cannot carry)
     opts = {"returns": "Deque[Tuple[PathSegmentTypes, Any]]", "len_fn": "seg_count", "result_elem_inv": SEG_CLAUSES}
     loops = {
         "for char_idx, char in enumerate(yaml_path)": {
@@ -38,6 +41,14 @@ class ExpandSplats:
     """Total on str segment ids: returns a segment or raises YAMLPathException."""
     params = {"yaml_path": "str", "segment_id": "str", "segment_type": "PathSegmentTypes"}
     raises = ["YAMLPathException"]
+    ensures = [
+        # the attribute is the given text (type unchanged), or nothing (wildcard / traversal), or a built SearchTerms
+        "result[1] is segment_id or result[1] is None or isinstance(result[1], SearchTerms)",
+        "implies(result[1] is segment_id, result[0] is segment_type)",
+        "implies(isinstance(result[1], SearchTerms), result[0] is PathSegmentTypes.SEARCH)",
+        "implies(result[1] is None, result[0] is PathSegmentTypes.MATCH_ALL or result[0] is PathSegmentTypes.TRAVERSE)",
+    ]
+    opts = {"returns": "Tuple[PathSegmentTypes, Any]"}
 
 
 FIELDS = {"self._original": "str", "self._separator": "PathSeparators", "self._stringified": "str",
